@@ -2,7 +2,7 @@ import ApolloModel.Proofs.ParserLossless
 import ApolloModel.Proofs.ParserType10
 import ApolloModel.Proofs.ParserValue9
 import ApolloModel.Proofs.ParserSel9
-import ApolloModel.Proofs.ParserComplete5
+import ApolloModel.Proofs.ParserComplete16
 import ApolloModel.Proofs.ParserDef19
 import ApolloModel.Proofs.ParserTermination8
 import ApolloModel.Proofs.ParserDoc5
@@ -462,6 +462,174 @@ theorem directives_accept_complete (n : Nat) (isConst : Bool) (s s' : PState) (d
   obtain ⟨e, t, _⟩ := Parse.directives_complete n isConst s s' () c _ q0 rest w h ⟨ds, rfl, hfit⟩
     ⟨hspell, hhead⟩ ht hq hfollow trivial
   exact ⟨t, e.doom⟩
+
+/-! ### completeness (growth 6): selection sets, executable definitions, executable documents; totality -/
+
+/-- **`selection::selection_set`, acceptance is complete.**  Any `{ Selection+ }` of the C08 reference grammar
+    (`Ast.tSelSet ss`, `ss` non-empty) that FITS the remaining recursion budget `b = recLimit − recCur`
+    (`1 ≤ b` and `fitSels ss (b − 1)`: each `{ … }` level costs one; list/object nesting of argument values costs its
+    depth; a fragment-spread name is not `on`; an inline fragment has a non-empty selection set), in any spelling,
+    followed by any significant token: every finished run consumed exactly the spelling and reported no error.
+    This covers both `peek_n(2)` decisions — alias (`a : b` with ignored tokens before the colon) and fragment spread
+    vs inline fragment (`...on T`, `... on T`, `... @d {`, `... {`) — and the `has_selection` loop. -/
+theorem selection_set_accept_complete (n : Nat) (s s' : PState) (ss : Ast.Sels) (c : List Tok) (q0 : Tok) (rest : List Tok)
+    (w : TW s) (hne : ss ≠ Ast.Sels.nil) (hb : 1 ≤ s.recLimit - s.recCur) (hfit : fitSels ss (s.recLimit - s.recCur - 1))
+    (hspell : (sig c).map astOfV = (Ast.tSelSet ss).map some)
+    (hhead : ∀ hd tl, c = hd :: tl → isIgnoredKind hd.kind = false)
+    (ht : Toks s = c ++ q0 :: rest) (hq : isIgnoredKind q0.kind = false)
+    (h : (selectionSet n).run s = .ok () s') :
+    Toks s' = q0 :: rest ∧ (Doomed s' ↔ Doomed s) ∧ s'.recCur = s.recCur := by
+  obtain ⟨e, t, _⟩ := Parse.selectionSet_complete n s s' () c _ q0 rest w h ⟨ss, hne, rfl, hb, hfit⟩ ⟨hspell, hhead⟩ ht hq trivial trivial
+  exact ⟨t, e.doom, e.recCur⟩
+
+/-- **Totality** (link to C01 termination): from a state satisfying the model invariant `Inv` (no panic) and the
+    position bookkeeping `W` of the termination proofs, with fuel `n ≥ 2·Mm s + 2` (`Mm s` = number of characters
+    not yet lexed, + 1 if a token is buffered), the run of `value` FINISHES, and it consumed exactly the spelling
+    without error. -/
+theorem value_accept_complete_total (n : Nat) (isConst popOnError : Bool) (s : PState) (v : Ast.Value)
+    (c : List Tok) (q0 : Tok) (rest : List Tok) (hinv : Inv s) (hw : W s) (w : TW s) (hfuel : 2 * Mm s + 2 ≤ n)
+    (hok : valueOk isConst v = true) (hdepth : vdepth v ≤ s.recLimit - s.recCur)
+    (hspell : (sig c).map astOfV = (Ast.tValue v).map some)
+    (hhead : ∀ hd tl, c = hd :: tl → isIgnoredKind hd.kind = false)
+    (ht : Toks s = c ++ q0 :: rest) (hq : isIgnoredKind q0.kind = false) :
+    ∃ s', (value n isConst popOnError).run s = .ok () s' ∧ Toks s' = q0 :: rest ∧ (Doomed s' ↔ Doomed s) := by
+  obtain ⟨s', hr, e, t⟩ := Parse.value_complete_total n isConst popOnError s hinv hw w hfuel c _ q0 rest ⟨v, rfl, hok, hdepth⟩
+    ⟨hspell, hhead⟩ ht hq
+  exact ⟨s', hr, t, e.doom⟩
+
+/-- totality for `arguments` (fuel `n ≥ 4·Mm s + 4`) -/
+theorem arguments_accept_complete_total (n : Nat) (isConst : Bool) (s : PState) (args : List (Ast.Str × Ast.Value))
+    (c : List Tok) (q0 : Tok) (rest : List Tok) (hinv : Inv s) (hw : W s) (w : TW s) (hfuel : 4 * Mm s + 4 ≤ n) (hne : args ≠ [])
+    (hfit : ∀ a ∈ args, valueOk isConst a.2 = true ∧ vdepth a.2 ≤ s.recLimit - s.recCur)
+    (hspell : (sig c).map astOfV = (Ast.tArguments args).map some)
+    (hhead : ∀ hd tl, c = hd :: tl → isIgnoredKind hd.kind = false)
+    (ht : Toks s = c ++ q0 :: rest) (hq : isIgnoredKind q0.kind = false) :
+    ∃ s', (arguments n isConst).run s = .ok () s' ∧ Toks s' = q0 :: rest ∧ (Doomed s' ↔ Doomed s) := by
+  obtain ⟨s', hr, e, t⟩ := Parse.arguments_complete_total n isConst s hinv hw w hfuel c _ q0 rest ⟨args, hne, rfl, hfit⟩
+    ⟨hspell, hhead⟩ ht hq
+  exact ⟨s', hr, t, e.doom⟩
+
+/-- totality for `directives` (fuel `n ≥ 4·Mm s + 4`) -/
+theorem directives_accept_complete_total (n : Nat) (isConst : Bool) (s : PState) (ds : List Ast.Directive)
+    (c : List Tok) (q0 : Tok) (rest : List Tok) (hinv : Inv s) (hw : W s) (w : TW s) (hfuel : 4 * Mm s + 4 ≤ n)
+    (hfit : ∀ d ∈ ds, ∀ a ∈ d.args, valueOk isConst a.2 = true ∧ vdepth a.2 ≤ s.recLimit - s.recCur)
+    (hspell : (sig c).map astOfV = (Ast.tDirectives ds).map some)
+    (hhead : ∀ hd tl, c = hd :: tl → isIgnoredKind hd.kind = false)
+    (ht : Toks s = c ++ q0 :: rest) (hq : isIgnoredKind q0.kind = false)
+    (hfollow : q0.kind ≠ .at ∧ q0.kind ≠ .lParen) :
+    ∃ s', (directives n isConst).run s = .ok () s' ∧ Toks s' = q0 :: rest ∧ (Doomed s' ↔ Doomed s) := by
+  obtain ⟨s', hr, e, t⟩ := Parse.directives_complete_total n isConst s hinv hw w hfuel c _ q0 rest ⟨ds, rfl, hfit⟩
+    ⟨hspell, hhead⟩ ht hq hfollow
+  exact ⟨s', hr, t, e.doom⟩
+
+/-- totality for `selection_set` (fuel `n ≥ 4·Mm s + 2`) -/
+theorem selection_set_accept_complete_total (n : Nat) (s : PState) (ss : Ast.Sels) (c : List Tok) (q0 : Tok) (rest : List Tok)
+    (hinv : Inv s) (hw : W s) (w : TW s) (hfuel : 4 * Mm s + 2 ≤ n)
+    (hne : ss ≠ Ast.Sels.nil) (hb : 1 ≤ s.recLimit - s.recCur) (hfit : fitSels ss (s.recLimit - s.recCur - 1))
+    (hspell : (sig c).map astOfV = (Ast.tSelSet ss).map some)
+    (hhead : ∀ hd tl, c = hd :: tl → isIgnoredKind hd.kind = false)
+    (ht : Toks s = c ++ q0 :: rest) (hq : isIgnoredKind q0.kind = false) :
+    ∃ s', (selectionSet n).run s = .ok () s' ∧ Toks s' = q0 :: rest ∧ (Doomed s' ↔ Doomed s) := by
+  obtain ⟨s', hr, e, t⟩ := Parse.selectionSet_complete_total n s hinv hw w hfuel c _ q0 rest ⟨ss, hne, rfl, hb, hfit⟩
+    ⟨hspell, hhead⟩ ht hq
+  exact ⟨s', hr, t, e.doom⟩
+
+/-- **`variable::variable_definitions`, acceptance is complete**: `( $name : Type DefaultValue? Directives? … )`, at
+    least one; `varFit`: the list nesting of the type, the nesting of the (constant) default value and of the
+    directive arguments (constant) are within the budget. -/
+theorem variable_definitions_accept_complete (n : Nat) (s s' : PState) (vs : List Ast.VarDef) (c : List Tok) (q0 : Tok)
+    (rest : List Tok) (w : TW s) (hne : vs ≠ []) (hfit : ∀ v ∈ vs, varFit (s.recLimit - s.recCur) v)
+    (hspell : (sig c).map astOfV = (Ast.tVarDefs vs).map some)
+    (hhead : ∀ hd tl, c = hd :: tl → isIgnoredKind hd.kind = false)
+    (ht : Toks s = c ++ q0 :: rest) (hq : isIgnoredKind q0.kind = false)
+    (h : (variableDefinitions n).run s = .ok () s') : Toks s' = q0 :: rest ∧ (Doomed s' ↔ Doomed s) := by
+  obtain ⟨e, t, _⟩ := Parse.cmp_variableDefinitions n s s' () c _ q0 rest w h ⟨vs, hne, rfl, hfit⟩ ⟨hspell, hhead⟩ ht hq trivial trivial
+  exact ⟨t, e.doom⟩
+
+/-- **`operation::operation_definition`, acceptance is complete**, full form
+    `OperationType Name? VariableDefinitions? Directives? SelectionSet` (for the shorthand see
+    `operation_shorthand_accept_complete`), followed by any significant token. -/
+theorem operation_definition_accept_complete (n : Nat) (s s' : PState) (ty : Ast.OpType) (name : Option Ast.Str)
+    (vars : List Ast.VarDef) (dirs : List Ast.Directive) (sels : Ast.Sels) (c : List Tok) (q0 : Tok) (rest : List Tok) (w : TW s)
+    (hv : ∀ v ∈ vars, varFit (s.recLimit - s.recCur) v) (hd : dirsFit false (s.recLimit - s.recCur) dirs)
+    (hne : sels ≠ Ast.Sels.nil) (hb : 1 ≤ s.recLimit - s.recCur) (hfit : fitSels sels (s.recLimit - s.recCur - 1))
+    (hspell : (sig c).map astOfV = (Ast.tDefinition false (.operation ty name vars dirs sels)).map some)
+    (hhead : ∀ hd tl, c = hd :: tl → isIgnoredKind hd.kind = false)
+    (ht : Toks s = c ++ q0 :: rest) (hq : isIgnoredKind q0.kind = false)
+    (h : (operationDefinition n).run s = .ok () s') : Toks s' = q0 :: rest ∧ (Doomed s' ↔ Doomed s) := by
+  rw [Parse.tOperation_eq] at hspell
+  obtain ⟨e, t, _⟩ := Parse.operationDefinition_complete n s s' () c _ q0 rest w h
+    (Or.inl ⟨ty, name, vars, dirs, sels, rfl, hv, hd, hne, hb, hfit⟩) ⟨hspell, hhead⟩ ht hq trivial trivial
+  exact ⟨t, e.doom⟩
+
+/-- the shorthand `{ Selection+ }` through `operation_definition` -/
+theorem operation_shorthand_accept_complete (n : Nat) (s s' : PState) (sels : Ast.Sels) (c : List Tok) (q0 : Tok)
+    (rest : List Tok) (w : TW s)
+    (hne : sels ≠ Ast.Sels.nil) (hb : 1 ≤ s.recLimit - s.recCur) (hfit : fitSels sels (s.recLimit - s.recCur - 1))
+    (hspell : (sig c).map astOfV = (Ast.tSelSet sels).map some)
+    (hhead : ∀ hd tl, c = hd :: tl → isIgnoredKind hd.kind = false)
+    (ht : Toks s = c ++ q0 :: rest) (hq : isIgnoredKind q0.kind = false)
+    (h : (operationDefinition n).run s = .ok () s') : Toks s' = q0 :: rest ∧ (Doomed s' ↔ Doomed s) := by
+  obtain ⟨e, t, _⟩ := Parse.operationDefinition_complete n s s' () c _ q0 rest w h
+    (Or.inr ⟨sels, hne, rfl, hb, hfit⟩) ⟨hspell, hhead⟩ ht hq trivial trivial
+  exact ⟨t, e.doom⟩
+
+/-- **`fragment::fragment_definition`, acceptance is complete**: `fragment FragmentName TypeCondition Directives?
+    SelectionSet` with `FragmentName ≠ on`.  (The underlying lemma `Parse.cmp_fragBody` is about the function from
+    the keyword on.) -/
+theorem fragment_definition_accept_complete (n : Nat) (s s' : PState) (name tc : Ast.Str) (dirs : List Ast.Directive)
+    (sels : Ast.Sels) (c : List Tok) (q0 : Tok) (rest : List Tok) (w : TW s)
+    (hnm : name ≠ Ast.sOn) (hd : dirsFit false (s.recLimit - s.recCur) dirs)
+    (hne : sels ≠ Ast.Sels.nil) (hb : 1 ≤ s.recLimit - s.recCur) (hfit : fitSels sels (s.recLimit - s.recCur - 1))
+    (hspell : (sig c).map astOfV = (Ast.tDefinition false (.fragment name tc dirs sels)).map some)
+    (hhead : ∀ hd tl, c = hd :: tl → isIgnoredKind hd.kind = false)
+    (ht : Toks s = c ++ q0 :: rest) (hq : isIgnoredKind q0.kind = false)
+    (h : (fragmentDefinition n).run s = .ok () s') : Toks s' = q0 :: rest ∧ (Doomed s' ↔ Doomed s) := by
+  obtain ⟨e, t, _⟩ := Parse.fragmentDefinition_complete n s s' () c _ q0 rest w h
+    ⟨name, tc, dirs, sels, rfl, hnm, hd, hne, hb, hfit⟩ ⟨hspell, hhead⟩ ht hq trivial trivial
+  exact ⟨t, e.doom⟩
+
+/-- **an executable definition through the document dispatch** (`document()`'s `match` on the token kind and
+    `select_definition` on the token TEXT): from a state whose buffered current token `t` is the first token of a
+    spelling of an executable definition `x` (`LExecDef`: full operation, shorthand, or fragment definition, within
+    the budget), the selected definition parser consumed exactly that spelling without error.  The hypothesis on
+    `{` tokens is the lexer fact `curly_token_text`. -/
+theorem executable_definition_accept_complete (n : Nat) (s s' : PState) (t : Tok) (tl : List Tok) (x : List Ast.Tok)
+    (q0 : Tok) (rest : List Tok) (w : TW s) (hcur : s.current = some t) (hcurly : t.kind = .lCurly → t.data = ['{'])
+    (hx : LExecDef (s.recLimit - s.recCur) x) (hspell : (sig (t :: tl)).map astOfV = x.map some)
+    (hhead : isIgnoredKind t.kind = false)
+    (ht : Toks s = (t :: tl) ++ q0 :: rest) (hq : isIgnoredKind q0.kind = false)
+    (h : (documentDispatch n t.kind).run s = .ok () s') : Toks s' = q0 :: rest ∧ (Doomed s' ↔ Doomed s) := by
+  obtain ⟨e, t2⟩ := Parse.dispatch_comp n s s' t tl x q0 rest w hcur hcurly hx
+    ⟨hspell, by intro hd tl' e; injection e with e _; subst e; exact hhead⟩ ht hq h
+  exact ⟨t2, e.doom⟩
+
+/-- the lexer fact used by the dispatch, proved for the token queue of EVERY source text: a `{` token has the text `{` -/
+theorem curly_token_text (src : Parse.Str) : ∀ t ∈ srcToks src, t.kind = .lCurly → t.data = ['{'] :=
+  Parse.curlyQ_srcToks src
+
+/-- **`Parser::parse` accepts every executable document of the grammar within the recursion limit.**
+    If the source has no lexer error and its significant tokens — with ARBITRARY ignored tokens anywhere, also in
+    front — are the concatenation of one or more executable definitions (`IsExecDocFit rl`: each a full operation
+    definition, a shorthand `{ Selection+ }`, or a fragment definition with name ≠ `on`, each within the recursion
+    limit `rl`: selection-set nesting + 1 ≤ rl, value / type nesting ≤ rl), followed by EOF, then the parse reports
+    ZERO errors.  No hypothesis on the outcome: `parse` always ends with a tree (C01 `parse_terminates`, `parse_no_panic`).
+    Not covered: descriptions in front of executable definitions, type-system definitions and extensions. -/
+theorem executable_document_accept_complete (rl : Nat) (src : Parse.Str) (x : List Ast.Tok) (ts : List Tok) (e : Tok)
+    (hclean : LexClean src) (hsig : sig (srcToks src) = ts ++ [e]) (he : e.kind = .eof)
+    (hx : TokIs ts x) (hfit : IsExecDocFit rl x) : (parse .document none rl src).errors = [] :=
+  Parse.parseDocument_complete_sig rl src x ts e hclean hsig he hx hfit
+
+-- witnesses (kernel-evaluated on the model): a document of all five kinds of executable definition; the budget is
+-- exact (`{a}` needs 1; `[[Int]]` needs 2); a fragment named `on` is rejected
+example : (parse .document none 500 " fragment F on T { a } {b} query { c } mutation M { d } subscription { e }".toList).errors = [] := by decide +kernel
+example : (parse .document none 500 "query query { a } fragment fragment on fragment { a }".toList).errors = [] := by decide +kernel
+example : (parse .document none 0 "{a}".toList).errors ≠ [] := by decide +kernel
+example : (parse .document none 1 "{a}".toList).errors = [] := by decide +kernel
+example : (parse .document none 1 "query Q($v: [Int] = [1]) @d { a }".toList).errors = [] := by decide +kernel
+example : (parse .document none 1 "query Q($v: [[Int]]) { a }".toList).errors ≠ [] := by decide +kernel
+example : (parse .document none 2 "query Q($v: [[Int]]) { a }".toList).errors = [] := by decide +kernel
+example : (parse .document none 500 "fragment on on T { a }".toList).errors ≠ [] := by decide +kernel
 
 end Executable
 
